@@ -87,19 +87,21 @@ func propC18(a *Analysis, r *Registry) {
 			b.Eq("D-bound capacity", name+"/k-init", b.pos(fn), ki, env, "1")
 			b.Eq("D-bound capacity", name+"/k-step", b.pos(fn), kn, env, "shl(k,1)")
 			hdr := X.phiOf[k.SingleAtom().ID].Block()
-			ifi, ok := hdr.Instrs[len(hdr.Instrs)-1].(*ssa.If)
-			if !ok {
-				r.Fail("D-bound capacity", name+"/loop", b.pos(fn), "no doubling loop")
-				return
-			}
-			// the loop continues exactly while the capacity is insufficient, so at exit k >= i/32+1
-			cond := fc.Val(ifi.Cond)
+			// the loop is left only once the capacity suffices: no exit can be taken while
+			// k < i/32+1 (however the test is placed), so afterwards len(marks) = k >= i/32+1
 			want := env.MustParse("k<idiv(i,32)+1")
-			alt := env.MustParse("k<=idiv(i,32)")
-			if cond.Equal(want) || cond.Equal(alt) {
-				r.OK("D-bound capacity", name+"/exit-implies-capacity", a.W.InstrPos(ifi), "doubles while k < i/32+1: at exit len(marks) = k >= i/32+1")
+			exits := fc.ExitEdges(hdr)
+			bad := ""
+			for _, ee := range exits {
+				if !X.SimplifyUnder(want, []Assumption{{Cond: ee.Cond, True: true}}).Equal(S.False()) {
+					bad = ee.Cond.String()
+				}
+			}
+			where := a.W.InstrPos(hdr.Instrs[len(hdr.Instrs)-1])
+			if len(exits) > 0 && bad == "" {
+				r.OK("D-bound capacity", name+"/exit-implies-capacity", where, "doubles while k < i/32+1: at exit len(marks) = k >= i/32+1")
 			} else {
-				r.Fail("D-bound capacity", name+"/exit-implies-capacity", a.W.InstrPos(ifi), "the doubling loop runs while "+clip(cond.String(), 120)+"; its exit does not give k >= i/32+1, so marks[i/32] can be out of range after grow (e.g. Mark(1024) on a fresh set)")
+				r.Fail("D-bound capacity", name+"/exit-implies-capacity", where, "the doubling loop can be left when "+clip(bad, 120)+"; its exit does not give k >= i/32+1, so marks[i/32] can be out of range after grow (e.g. Mark(1024) on a fresh set)")
 			}
 			// old words copied
 			cp := fc.CallsTo("builtin:copy")
@@ -123,64 +125,51 @@ func propC18(a *Analysis, r *Registry) {
 	if fn := b.Fn(rB, "graph/graphalg.(NodeMarks).Next"); fn != nil {
 		name := "graph/graphalg.(NodeMarks).Next"
 		b.guard(rB, name, func() {
-			fc := X.FCFor(fn)
+			_ = X.FCFor(fn)
 			env := X.EnvFor(fn, "m", "i")
 			env.Let("j", "ite(i+1<0, 0, i+1)")
 			env.Let("b0", "shr(m.marks[idiv(j,32)], imod(j,32))")
-			type want struct{ val, when string }
-			ws := []want{{"-1", "len(m.marks)<=idiv(j,32)"}, {"j+tz32(b0)", "!(len(m.marks)<=idiv(j,32)) && b0!=0"}}
-			for _, w := range ws {
-				wv, wc := env.MustParse(w.val), env.MustParse(w.when)
-				ok := false
-				for _, rt := range fc.Ctx.Returns() {
-					func() {
-						defer func() { recover() }()
-						if fc.Val(rt.Results[0]).Equal(wv) && (fc.ReachCond(rt.Block()).Equal(wc) || S.BoolEquiv(fc.ReachCond(rt.Block()), wc)) {
-							ok = true
-						}
-					}()
-				}
-				if ok {
-					r.OK(rB, name+"/returns "+w.val, b.pos(fn), "when "+w.when)
-				} else {
-					r.Fail(rB, name+"/returns "+w.val, b.pos(fn), "no return of "+w.val+" exactly when "+w.when)
-				}
-			}
-			// word scan: in Next itself, or in a helper whose result Next returns directly
+			// decided by cases on the function's (gated) result, however the branches are nested:
+			// beyond the last word → -1; a bit left in the starting word → j+tz32(b0)
+			beyond := env.MustParse("len(m.marks)<=idiv(j,32)")
+			bit := env.MustParse("b0!=0")
+			fc1 := X.Under(fn, X.AssumeCond(beyond, true))
+			b.EqUnder(rB, name+"/returns -1", b.pos(fn), fc1, fc1.RetVal(0), env, "-1")
+			fc2 := X.Under(fn, X.AssumeCond(beyond, false), X.AssumeCond(bit, true))
+			b.EqUnder(rB, name+"/returns j+tz32(b0)", b.pos(fn), fc2, fc2.RetVal(0), env, "j+tz32(b0)")
+			// otherwise the remaining words are searched for the first non-zero one: in Next
+			// itself, or in a helper whose result Next returns
+			fc3 := X.Under(fn, X.AssumeCond(beyond, false), X.AssumeCond(bit, false))
 			found := false
-			scanFCs := []*FC{fc}
-			for _, sfc := range fc.BoundCallees(1)[1:] {
-				for _, rt := range fc.Ctx.Returns() {
-					if c, ok := rt.Results[0].(*ssa.Call); ok && c.Common().StaticCallee() == sfc.Fn {
-						scanFCs = append(scanFCs, sfc)
-					}
+			for _, sfc := range fc3.BoundCallees(1) {
+				loops := sfc.Ctx.Loops()
+				if len(loops) != 1 {
+					continue
 				}
-			}
-			for _, sfc := range scanFCs {
-				for _, rt := range sfc.Ctx.Returns() {
-					v := sfc.Val(rt.Results[0])
-					if sfc.Ctx.LoopOf(rt.Block()) == nil && len(sfc.loopPhis(v)) == 0 {
-						continue
-					}
-					phs := sfc.loopPhis(v)
-					if len(phs) != 1 {
-						continue
-					}
-					e := X.EnvFor(fn, "m", "i")
-					e.Vars["j"] = env.Vars["j"]
-					e.Set("bi", phs[0], nil)
-					if v.Equal(e.MustParse("32*bi+tz32(m.marks[bi])")) {
-						bi0, bin := sfc.Recurrence(phs[0])
-						if bi0.Equal(e.MustParse("idiv(j,32)+1")) && bin.Equal(e.MustParse("bi+1")) {
-							found = true
+				found = true
+				marks := env.MustParse("m.marks")
+				b.FirstHitScan(rB, name+"/word-scan", b.pos(sfc.Fn), sfc, loops[0].Header, FirstHit{
+					Base:  marks,
+					First: sfc.Sub(env.MustParse("idiv(j,32)+1")),
+					N:     S.MakeFn("len", marks),
+					Hit:   func(e *RF) *RF { return S.Cmp("!=", S.MakeFn("idx", marks, e), S.Int(0)) },
+					Val: func(e *RF) *RF {
+						return S.Int(32).Mul(e).Add(S.MakeFn("math/bits.TrailingZeros32", S.MakeFn("idx", marks, e)))
+					},
+					Miss: S.Int(-1),
+				})
+				// every result in this case comes out of that search
+				if sfc == fc3 {
+					for _, rt := range fc3.Ctx.Returns() {
+						if !fc3.Ctx.Dominates(loops[0].Header, rt.Block()) {
+							r.Fail(rB, name+"/word-scan", a.W.InstrPos(rt), "a result for the remaining words that does not come from the word search")
 						}
 					}
 				}
+				break
 			}
-			if found {
-				r.OK(rB, name+"/word-scan", b.pos(fn), "scans words bi = j/32+1 … and returns 32*bi + tz(marks[bi])")
-			} else {
-				r.Fail(rB, name+"/word-scan", b.pos(fn), "the word scan does not return 32*bi+tz(marks[bi]) for bi from j/32+1")
+			if !found {
+				r.Fail(rB, name+"/word-scan", b.pos(fn), "no search loop over the remaining words")
 			}
 		})
 	}
